@@ -439,7 +439,7 @@ STORE_WRITE_ASPECTS = {
     "C02": {"R02.4", "R02.5", "R09.2", "R18.3"},           # value swapped in place, right outcome, guards, same key
     "C03": {"R03.5"},                                       # the new deadline is installed
     "C04": {"R02.4", "R02.5", "R03.5", "R04.4", "R05.2", "R09.2", "R18.3", "R08.2"},  # exact map: everything
-    "C05": {"R03.5", "R05.2"},                              # stored deadline and expiry index move together
+    "C05": {"R03.5", "R05.2", "R09.2"},                     # stored deadline and expiry index move together, and only for an accepted write
     "C06": {"R04.4"},                                       # what the policy admitted is stored
     "C08": {"R02.4", "R08.2", "R09.2"},                     # old value comes back out, refused value handed back
     "C09": {"R09.2", "R02.4", "R02.5", "R03.5"},            # guards, outcomes, value swapped only when accepted; TTL untouched on veto
